@@ -72,6 +72,14 @@ def expected_updates(timetable, cyclical, horizon, t0=0):
 
 
 class SchedRunner(Base):
+    def in_action(self, sched, time, state):
+        """what an action sees when it looks at the scheduler that called it: the state it was told and the clock"""
+        if sched.current_state != state:
+            self.fail('C18.a', f'scheduler {sched.sidx}: while the action for state {state!r} runs at {time}, current_state '
+                      f'reads {sched.current_state!r}', 'state_inside_action')
+        if time != self.env.now:
+            self.fail('C18.b', f'scheduler {sched.sidx}: action got time {time} at {self.env.now}', 'action_time')
+
     def run(self):
         lib, case = self.lib, self.case
         core.begin_run(self, None, case['tiebreak'], case.get('id_offset', 0))
@@ -87,6 +95,7 @@ class SchedRunner(Base):
         class HSched(lib.ActionScheduler):
             def default_action(self, obj, time, new_state):
                 runner.calls.append((self.sidx, obj.k, time, new_state, 'default', self))
+                runner.in_action(self, time, new_state)
 
         class Obj:
             def __init__(self, k):
@@ -94,6 +103,7 @@ class SchedRunner(Base):
 
         def override(sched, obj, time, state):
             runner.calls.append((sched.sidx, obj.k, time, state, 'override', sched))
+            runner.in_action(sched, time, state)
 
         self.override = override
         for k in range(case['n_objs']):
@@ -363,6 +373,7 @@ class SensorRunner(Base):
         tgt.lst = [0]
         tgt.y = 'init'
         tgt.cond = Cond(0)
+        tgt.lst0 = []
         # a small line with a processor that output-part sensors watch
         ln = case['line']
 
@@ -395,6 +406,12 @@ class SensorRunner(Base):
                 return lib.AttributeProbe(p[1], target)
             if p[0] == 'fn':
                 return lib.Probe(lambda t, name=p[1]: getattr(t, name, None), target)
+            if p[0] == 'closure':
+                # the function knows where to look by itself: no target is given
+                return lib.Probe(lambda t, name=p[1]: getattr(tgt, name, None), None)
+            if p[0] == 'len':
+                # the target is a container that is empty at first (and 0 / [] / None are targets like any other)
+                return lib.Probe(len, tgt.lst0)
             raise HarnessError(p)
 
         self.sensors = [None] * len(case['sensors'])
@@ -456,7 +473,10 @@ class SensorRunner(Base):
         out = []
         for p in sc['probes']:
             tgt = self.target if sc['k'] == 'periodic' else part
-            out.append(copy.deepcopy(getattr(tgt, p[1], None)))
+            if p[0] == 'len':
+                out.append(len(self.target.lst0))
+            else:
+                out.append(copy.deepcopy(getattr(tgt, p[1], None)))
         return out
 
     def mk_cb(self, si, ci, sc):
@@ -481,6 +501,7 @@ class SensorRunner(Base):
             t.y = f"v{op['v']}"
         elif k == 'append':
             t.lst.append(op['v'])      # in-place mutation: stored samples must not change
+            t.lst0.append(op['v'])
             t.cond.v = op['v']
             self.bump('inplace_mutation')
         elif k == 'manual':
@@ -610,7 +631,8 @@ def gen_sensor(rng):
         cap = rng.choice((None, 1, 2, 3, 5))
         ncb = rng.choice((1, 1, 2, 3))
         if rng.random() < 0.6:
-            probes = [rng.choice((['attr', 'x'], ['attr', 'lst'], ['fn', 'y'], ['attr', 'missing'], ['fn', 'lst'], ['attr', 'cond'], ['fn', 'cond']))
+            probes = [rng.choice((['attr', 'x'], ['attr', 'lst'], ['fn', 'y'], ['attr', 'missing'], ['fn', 'lst'], ['attr', 'cond'], ['fn', 'cond'],
+                                  ['closure', 'x'], ['closure', 'lst'], ['len', 'lst0']))
                       for _ in range(rng.randint(1, 3))]
             sc = {'k': 'periodic', 'interval': rng.choice((0.25, 0.5, 1, 3, 0.1, 0.7)), 'probes': probes}
         else:
